@@ -1109,10 +1109,10 @@ fn pick_kind(rng: &mut Rng) -> DynKind {
 
 pub fn run(ctx: &mut Ctx, prop: &str) {
     let n: u64 = match (prop, ctx.tier) {
-        ("C08", Tier::Quick) => 24_000,
-        ("C08", Tier::Thorough) => 800_000,
-        (_, Tier::Quick) => 24_000,
-        (_, Tier::Thorough) => 800_000,
+        ("C08", Tier::Quick) => 240_000,
+        ("C08", Tier::Thorough) => 4_000_000,
+        (_, Tier::Quick) => 240_000,
+        (_, Tier::Thorough) => 4_000_000,
     };
     let fault_pct = if prop == "C09" { 15 } else { 0 };
     let tag: u64 = if prop == "C09" { 9 } else { 8 };
